@@ -192,10 +192,11 @@ def prologue(rng, attached, n_elem=5, n_text=2, n_cdata=1):
             ops.append(['new', 'e', 0, '@doctext'])
         else:
             ops.append(['new', 'e', i, rng.choice(ELEMS) if rng else ['Section', 'P', 'Span', 'P', 'Span'][i % 5]])
+    # every other text node (and, in random histories, sometimes the CDATA node) holds the empty string
     for j in range(n_text):
-        ops.append(['new', 't', n_elem + j, None])
+        ops.append(['new', 't', n_elem + j, u'' if j % 2 == 0 else None])
     for j in range(n_cdata):
-        ops.append(['new', 'c', n_elem + n_text + j, None])
+        ops.append(['new', 'c', n_elem + n_text + j, u'' if (rng and rng.random() < 0.5) else None])
     return ops
 
 
@@ -231,7 +232,7 @@ def random_sequence(rng, attached, maxlen):
         else:
             if ref.kind[p] != 'e':
                 continue
-            op = [kind, p, nxt, rng.choice([u'x', u'', u'two words'])] if kind == 'addt' else ['addc', p, nxt, u'cd']
+            op = [kind, p, nxt, rng.choice([u'x', u'', u'two words'])] if kind == 'addt' else ['addc', p, nxt, rng.choice([u'cd', u''])]
         # the property excludes inserting a node into its own descendant (or itself); the attached root stays put
         if op[0] in ('append', 'insb', 'adde'):
             if ref.is_anc_or_self(op[2], op[1]):
@@ -348,7 +349,7 @@ def exhaustive(chk, drv, attached, n_elem, n_text, max_depth, max_states):
     pointer state).  Returns (#states, #ops applied, closed?)."""
     pro = prologue(None, attached, n_elem=n_elem, n_text=n_text, n_cdata=0)
     if n_text >= 2:
-        pro[-1] = ['new', 'c', pro[-1][2], None]       # one Text and one CDATASection
+        pro[-1] = ['new', 'c', pro[-1][2], None]       # one (empty) Text and one CDATASection
     ids = list(range(n_elem + n_text))
     alphabet = []
     for p in ids:
@@ -413,7 +414,7 @@ def exhaustive(chk, drv, attached, n_elem, n_text, max_depth, max_states):
 
 def run(chk, replay=None):
     chk.rule = ('random edit sequences (append / insertBefore / removeChild / addElement / addText / addCDATA, <= 40 ops, '
-                '5 elements + 2 text + 1 CDATA node, attached to a document or free-standing; ~1/3 of the references / '
+                '5 elements + 2 text + 1 CDATA node (empty-string text nodes among them), attached to a document or free-standing; ~1/3 of the references / '
                 'removals name non-children; insertion of a node into its own descendant excluded) plus every op in every '
                 'distinct pointer state reachable over a small universe; non-trivial = sequence that moves an already '
                 'attached node or contains a raising call')
